@@ -1,53 +1,52 @@
 #!/bin/bash
-# seed_verify.sh <PID> <a|b> [extra property ids to run]: confirm a sub-agent's mutant independently, then run our checks on it.
-# 1. scratch worktree: apply diff, build, full suite (minus examples) must pass, demo must fail; without the diff the demo must pass
-# 2. apply to /repo, run ./check <PID> quick (and extra ids), undo.
+# seed_verify.sh <WID> <a|b> <PID> [extra property ids]: confirm a sub-agent's mutant independently, then run our checks on it.
+# Everything happens in a scratch worktree of /repo (outside /repo and /verif), which is removed afterwards; /repo is never touched.
+# 1. apply diff, build, full suite (minus examples) must pass, demo must fail; without the diff the demo must pass
+# 2. run ./check <PID> quick (and extra ids) against the scratch tree (VERIF_REPO/VERIF_OUT), logs kept in seeded/<WID>-<x>/.
 set -u
 WID=$1; X=$2; PID=$3; shift 3; EXTRA="$@"
 export GOFLAGS=-mod=mod GOPROXY=off GOSUMDB=off GOTOOLCHAIN=local
 SRC=/tmp/mut/$WID/out
 VW=/tmp/vw-$WID$X
+VO=/tmp/vo-$WID$X
 OUT=/verif/seeded/$WID-$X
 mkdir -p $OUT
 cp $SRC/mutant-$X.diff $OUT/patch.diff
 cp $SRC/demo_${X}_test.go $OUT/ 2>/dev/null
 cp $SRC/notes-$X.md $OUT/notes.md 2>/dev/null
 LOG=$OUT/verify.log; : > $LOG
-git -C /repo worktree remove --force $VW >/dev/null 2>&1; rm -rf $VW
+git -C /repo worktree remove --force $VW >/dev/null 2>&1; rm -rf $VW $VO
 git -C /repo worktree add --detach $VW HEAD -q
-place=$(head -1 $OUT/demo_${X}_test.go | sed 's#// place in: *##; s#[[:space:]]*$##')
+place=$(head -1 $OUT/demo_${X}_test.go | sed 's#// place in: *##; s#[[:space:]]*$##; s#/$##')
 [ -z "$place" ] && place=test
 demo=$VW/$place/zzdemo_${X}_test.go
 cp $OUT/demo_${X}_test.go $demo
 cd $VW
-echo "== demo without mutant (must pass)" >> $LOG
-timeout 300 go test -vet=off -count=1 -run . ./$place/ >> $LOG 2>&1; base=$?
-# only run the demo's own tests: collect names
 names=$(grep -o '^func Test[A-Za-z0-9_]*' $demo | sed 's/func //' | paste -sd'|')
-timeout 300 go test -vet=off -count=1 -run "^($names)\$" ./$place/ > $OUT/demo_clean.log 2>&1; demo_clean=$?
+echo "== demo without mutant (must pass)" >> $LOG
+timeout 600 go test -vet=off -count=1 -run "^($names)\$" ./$place/ > $OUT/demo_clean.log 2>&1; demo_clean=$?
 git apply $OUT/patch.diff >> $LOG 2>&1; applied=$?
 echo "== build with mutant" >> $LOG
 go build ./... >> $LOG 2>&1; build=$?
 echo "== demo with mutant (must fail)" >> $LOG
-timeout 300 go test -vet=off -count=1 -run "^($names)\$" ./$place/ > $OUT/demo_mutant.log 2>&1; demo_mut=$?
+timeout 600 go test -vet=off -count=1 -run "^($names)\$" ./$place/ > $OUT/demo_mutant.log 2>&1; demo_mut=$?
 rm -f $demo
 echo "== full suite with mutant (must pass except examples)" >> $LOG
 pk=$(go list ./... | grep -v /examples)
 timeout 900 go test -vet=off -count=1 $pk > $OUT/suite_mutant.log 2>&1; suite=$?
+if [ $suite -ne 0 ]; then   # timing-sensitive tests flake on a loaded machine: one more try, sequential packages
+  grep -- '--- FAIL' $OUT/suite_mutant.log | head -5 >> $LOG
+  timeout 1500 go test -vet=off -count=1 -p 2 $pk > $OUT/suite_mutant.log 2>&1; suite=$?
+fi
 cd /verif
-git -C /repo worktree remove --force $VW >/dev/null 2>&1; rm -rf $VW
 echo "applied=$applied build=$build demo_clean=$demo_clean demo_mutant=$demo_mut suite=$suite" | tee -a $LOG
-res="{}"
 if [ $applied -eq 0 ] && [ $build -eq 0 ] && [ $demo_clean -eq 0 ] && [ $demo_mut -ne 0 ] && [ $suite -eq 0 ]; then
-  # confirmed: run our checks against it
-  git -C /repo apply $OUT/patch.diff || { echo "cannot apply to /repo" | tee -a $LOG; exit 1; }
   for p in $PID $EXTRA; do
-    timeout 1500 ./check $p quick > $OUT/check_$p.log 2>&1; rc=$?
+    VERIF_REPO=$VW VERIF_OUT=$VO timeout 1800 ./check $p quick > $OUT/check_$p.log 2>&1; rc=$?
     echo "check $p rc=$rc: $(grep -c '^VIOLATION' $OUT/check_$p.log) violations" | tee -a $LOG
-    grep '^VIOLATION\|^INCONCLUSIVE\|^ENGINE\|^OK\|^KNOWN' $OUT/check_$p.log | cut -c1-260 | head -8 | tee -a $LOG
+    grep '^VIOLATION\|^INCONCLUSIVE\|^ENGINE\|^OK\|^KNOWN' $OUT/check_$p.log | sed "s#$VO#/verif#" | cut -c1-260 | head -8 | tee -a $LOG
   done
-  git -C /repo checkout -- .
-  git -C /repo status --short | head -3
 else
   echo "NOT CONFIRMED - mutant rejected" | tee -a $LOG
 fi
+git -C /repo worktree remove --force $VW >/dev/null 2>&1; rm -rf $VW $VO
